@@ -539,6 +539,12 @@ def run_temperature(case, res):
     ec = sac.EntropyControl(E(), 0.2, True, 1e-2)
     # move the target so that both signs occur
     ec.target_entropy = float(rng.choice([-6.0, -2.0, 0.0, 3.0, 8.0]))
+    # temperatures far from the initial value 1 (long / continued runs)
+    la0 = float(rng.choice([-15.0, -12.0, 11.0]) if N in (2, 8)
+                else rng.choice([0.0, 0.0, -4.0, 3.0]))
+    ec._alpha.log_alpha.value = jnp.full_like(ec._alpha.log_alpha.value, la0)
+    res.see("temperature_log_alpha_far_from_zero" if abs(la0) > 10
+            else "temperature_log_alpha_moderate")
     obs = jnp.asarray(rng.normal(size=(N, 3)), dtype=jnp.float32)
     key = jax.random.key(int(rng.integers(1 << 20)))
     a = st.policy.sample(obs, key)
